@@ -473,6 +473,14 @@ Proof.
   rewrite (Permutation_length (nbrs_perm ct nx ny i j OK Hi Hj)). reflexivity.
 Qed.
 
+(** the neighbours of a visited junction p are p - 1, p + 1, p - (nx+1), p + (nx+1) *)
+Lemma gen_nbrs fixed jn : In jn (schedule ct cells n fixed) ->
+  forall t, In t (snd jn) <-> (t + 1 = fst jn \/ t = fst jn + 1 \/ t + S nx = fst jn \/ t = fst jn + S nx).
+Proof.
+  intros Hin t. destruct (gen_interior jn fixed Hin) as (i & j & Hi & Hj & ->). cbn [fst snd]. unfold cells, n.
+  rewrite (nbrs_interior ct nx ny i j OK Hi Hj t). unfold four, sidx. cbn [In]. lia.
+Qed.
+
 Lemma gen_reach : forall p, In p (map fst (schedule ct cells n [])) -> reach (schedule ct cells n []) p.
 Proof.
   intros p Hin. pose proof Hin as Hs. apply schedule_fst_spec in Hs. destruct Hs as (Hp & _).
@@ -555,7 +563,8 @@ Theorem lattice_all_sizes ct : quad_ok ct = true -> forall nx ny, 1 <= nx -> 1 <
   let cells := struct_cells nx ny in
   let n := struct_n nx ny in
   (forall k, k < n -> is_boundary ct cells k = border nx ny k)
-  /\ (forall fixed jn, In jn (schedule ct cells n fixed) -> length (snd jn) = 4)
+  /\ (forall fixed jn, In jn (schedule ct cells n fixed) -> length (snd jn) = 4 /\
+        forall t, In t (snd jn) <-> (t + 1 = fst jn \/ t = fst jn + 1 \/ t + S nx = fst jn \/ t = fst jn + S nx))
   /\ (forall fixed iters o a b, eqv (iterate iters (schedule ct cells n fixed) (lattice nx ny o a b)) (lattice nx ny o a b))
   /\ (forall o a b h, length h = n ->
         (forall jn, In jn (schedule ct cells n []) -> harmonic_at h jn) ->
@@ -568,7 +577,8 @@ Theorem lattice_all_sizes ct : quad_ok ct = true -> forall nx ny, 1 <= nx -> 1 <
 Proof.
   intros OK nx ny Hnx Hny. cbv zeta. split; [|split; [|split; [|split]]].
   - apply boundary_border; assumption.
-  - intros fixed jn. apply gen_four; assumption.
+  - intros fixed jn Hin. split; [apply (gen_four ct nx ny OK Hnx Hny fixed); exact Hin|].
+    apply (gen_nbrs ct nx ny OK Hnx Hny fixed). exact Hin.
   - apply gen_fixed_point; assumption.
   - apply gen_unique; assumption.
   - apply gen_converges; assumption.
